@@ -50,10 +50,8 @@ class _AddressList(Writeable):
         if self.headers:
             addresses: list[Address] = []
             for header in self.headers:
-                if isinstance(header, SingleAddressHeader):
-                    addresses.append(header.address)
-                else:
-                    addresses.extend(header.addresses)
+                # a Sender header may (wrongly) hold several addresses
+                addresses.extend(header.addresses)
             if addresses:
                 return List([self._parse(address)
                              for address in addresses])
